@@ -6,11 +6,11 @@
    Labels: FULL = closed theorem about the reference for all inputs; ORACLE = the claim "libpoly's chain = reference"
    is a Definition (…_full_statement), validated by the three-way correspondence only. *)
 From Coq Require Import ZArith List.
-From LP Require Import UPoly MPoly Scalar Sylvester Subres SylvesterEval.
+From LP Require Import UPoly MPoly Scalar RefAlg Sylvester Subres SylvesterEval.
 Set Warnings "-notation-overridden,-ambiguous-paths".
 From mathcomp Require Import all_ssreflect all_fingroup all_algebra.
 From mathcomp Require Import ssrZ zify.
-From LP Require Import UPolySpec SylvesterProofs SubresProofs.
+From LP Require Import UPolySpec SylvesterProofs SubresProofs SylvesterFast.
 Set Warnings "notation-overridden,ambiguous-paths".
 Import GRing.Theory.
 Local Open Scope ring_scope.
@@ -182,6 +182,18 @@ Theorem C04_resultant_vanishes_iff_Z : forall p q : seq Z,
   ((nth 0 p (size p).-1 == 0) && (nth 0 q (size q).-1 == 0)) || (1 < size (gcdp (Poly p) (Poly q)))%N.
 Proof. exact resultant_Z_eq0_formal. Qed.
 Print Assumptions C04_resultant_vanishes_iff_Z.
+
+(* FULL: the fast reference of the driver (dimension > 11, at most one parameter): fraction-free Bareiss elimination
+   (RefAlg.pdet_fast, Properties_Base.Base_pdet_fast_det) on the SAME matrices sylv_mat k j, entries list polynomials in
+   the parameter, is the determinant of that matrix, for every k <= min(m, n) and every j *)
+Theorem C04_fast_det_is_det : forall (k j : nat) (p q : seq (seq Z)),
+  let m := (size p).-1 in let n := (size q).-1 in
+  (k <= m)%N -> (k <= n)%N ->
+  Poly (pdet_fast (sylv_mat (seq Z) [::] k j p q)) =
+  \det (\matrix_(i < m + n - 2 * k, c < m + n - 2 * k)
+          (Poly (nth [::] (nth [::] (sylv_mat (seq Z) [::] k j p q) i) c) : {poly Z})).
+Proof. exact fast_det_is_det. Qed.
+Print Assumptions C04_fast_det_is_det.
 
 (* FULL (bookkeeping): psc_k is the coefficient of x^k of the k-th subresultant *)
 Theorem C04_psc_is_top_coefficient : forall (k : nat) (p q : seq mpoly),
